@@ -74,6 +74,8 @@ def concretise(hist, rnd):
             out.append("freenull")
         elif c == "SetTB":
             out.append("set TB %s" % val(a, rnd, 10.0))
+        elif c == "SetTachyon":
+            out.append("setm ml2 1 1 %s" % val("neg", rnd, 1e5))
         elif c == "Set":
             if rnd.random() < 0.5:
                 out.append("set %s %s" % (rnd.choice(SET_S), val(a, rnd)))
@@ -154,6 +156,17 @@ def histories(cx, n, seed, depth=40):
     return hs[:n]
 
 
+def cover_histories():
+    """one shortest history per (state before, call, state after) of CAPI.tla (CAPICover.tla)"""
+    r = tlc.run_tlc("CAPICover.tla", "CAPI_cover.cfg", workers=1, heap="2g", timeout=1200)
+    hs = []
+    for m in re.finditer(r'<<"HIST", "(.*)">>', r["out"]):
+        hs.append(json.loads(m.group(1).replace('\\"', '"')))
+    if r.get("violated") or len(hs) < 300:
+        raise tlc.TlcError("CAPICover failed: %s\n%s" % (r.get("violated"), r["out"][-2000:]))
+    return hs, r
+
+
 def run(tier, seed):
     cx = core.Ctx("C17", tier, seed, "model_checking")
     rnd = random.Random(seed)
@@ -162,7 +175,10 @@ def run(tier, seed):
     r = tlc.model_check("CAPI.tla", "CAPI_asis.cfg", expect_violation="NeverAborts", workers=8, heap="4g")
     cx.add_model(r, "CAPI.tla with the unchanged tree's protection table: NeverAborts violated (model-level reproduction of K6; non-vacuity)")
     nseq = 400 if tier == "quick" else 20000
-    hs = histories(cx, nseq, seed)
+    cov, rc = cover_histories()
+    cx.add_model(rc, "CAPICover.tla: one shortest history per transition (state, call, state') of CAPI.tla: %d histories" % len(cov))
+    cx.cov["transition_cover_histories"] = len(cov)
+    hs = cov * (1 if tier == "quick" else 5) + histories(cx, nseq, seed)
     script = cx.path("script.txt")
     with open(script, "w") as fh:
         for i, h in enumerate(hs):
@@ -201,7 +217,9 @@ def run(tier, seed):
     cx.assumptions += ["call alphabet and throwing preconditions of CAPI.tla; use-after-free and out-of-range matrix indices are outside the property",
                        "process death is observed through fork/waitpid under the ASan+UBSan build",
                        "the correspondence C function -> C++ function in harness/drv/d_capi.cpp follows the header documentation"]
-    return cx.finish(rule="call histories of depth 40 simulated by TLC from CAPI.tla (after exhaustive BFS to depth 8), concretised "
+    return cx.finish(rule="transition cover of CAPI.tla (CAPICover.tla: one shortest history per (state, call, state'), every call class "
+                          "with every argument class from every abstract state) plus "
+                          "call histories of depth 40 simulated by TLC from CAPI.tla (after exhaustive BFS to depth 8), concretised "
                           "(random functions of each class, finite and non-finite values, buffer lengths 0..64) and replayed on "
                           "a C handle and a mirrored C++ object in a forked child of the sanitizer build; evaluations = C calls; "
                           "distinct_nontrivial = sequences")
